@@ -54,10 +54,48 @@ def prog_cfg(unit):
             'INVARIANTS TypeOK Frame EnvOnlyBySetEnv MaskIsBooleans\nCHECK_DEADLOCK FALSE\n') % (n, w, k, 3 * n * w)
 
 
+# Which properties an event of the composed machine speaks about.  The machine runs operations of many properties in
+# one program; the check of property P gives a verdict only on rejected events P owns, the others are printed as
+# ELSEWHERE lines (the owner's check, which runs the same programs, decides them).  None = no attribution: a verdict of
+# whichever check runs the program (observers, unknown events).
+_OWN_OP = {
+    'add': ('C01',), 'sub': ('C01',), 'mul': ('C01',), 'neg': ('C01',), 'inc': ('C01',), 'dec': ('C01',),
+    'and': ('C04',), 'or': ('C04',), 'xor': ('C04',), 'not': ('C04',), 'shl': ('C04',), 'shr': ('C04',), 'rotl': ('C04',), 'rotr': ('C04',),
+    'min': ('C07',), 'max': ('C07',), 'average': ('C07',), 'midpoint': ('C07',), 'abs': ('C07',), 'neg_abs': ('C07',),
+    'popcount': ('C06',), 'countl_zero': ('C06',), 'countl_one': ('C06',), 'countr_zero': ('C06',), 'countr_one': ('C06',),
+    'byteswap': ('C06',), 'bit_width': ('C06',), 'bit_floor': ('C06',), 'bit_ceil': ('C06',), 'countl_sign': ('C06',),
+}
+_OWN_FOP = {
+    'add': ('C10',), 'sub': ('C10',), 'mul': ('C10',), 'fdiv': ('C10',), 'sqrt': ('C10',), 'inc': ('C10',), 'dec': ('C10',),
+    'neg': ('C10', 'C07'), 'abs': ('C10', 'C07'), 'neg_abs': ('C10', 'C07'), 'copysign': ('C10', 'C07'), 'min': ('C07',), 'max': ('C07',),
+    'ceil': ('C11',), 'floor': ('C11',), 'trunc': ('C11',), 'round': ('C11',), 'nearbyint': ('C11',), 'rint': ('C11',),
+    'frac': ('C12',), 'logb': ('C12',), 'fmax': ('C12',), 'fmin': ('C12',), 'fdim': ('C12',),
+    'eq': ('C02',), 'ne': ('C02',), 'lt': ('C02',), 'le': ('C02',), 'gt': ('C02',), 'ge': ('C02',),
+}
+_OWN_EVENT = {
+    'cmp': ('C02',), 'kset': ('C03',), 'kbin': ('C03',), 'knot': ('C03',), 'kins': ('C03',), 'kobs': ('C03',),
+    'blend': ('C03', 'C07'), 'keep': ('C03', 'C07'), 'clear': ('C03', 'C07'), 'negate': ('C03', 'C07'), 'fsel': ('C03', 'C07'),
+    'set_bits': ('C03', 'C07'), 'b2v': ('C03', 'C17'), 'fb2v': ('C03', 'C17'), 'nz': ('C03', 'C17'), 'fnz': ('C03', 'C17'),
+    'shift': ('C04',), 'shiftv': ('C04',), 'fpred': ('C13',),
+    'insert': ('C08',), 'extract': ('C08',), 'load': ('C08', 'C09'), 'store': ('C08', 'C09'), 'gather': ('C08', 'C09'), 'scatter': ('C08', 'C09'),
+}
+
+
+def avel_owners(ev):
+    e, o = ev.get('e') or ev.get('fam'), ev.get('o')
+    if e in ('bin', 'un'):
+        return _OWN_OP.get(o)
+    if e in ('fbin', 'fun'):
+        return _OWN_FOP.get(o)
+    if e == 'fcmp':
+        return _OWN_FOP.get(o, ('C13',))        # isgreater ... isunordered
+    return _OWN_EVENT.get(e)
+
+
 def prog_traces(ctx):
     """code -> TLC for the composed machine: register programs over live vectors, masks, memory and the rounding
     mode (harness/drv_prog.cpp) replayed as behaviours of spec/Avel.tla by spec/TraceAvel.tla"""
-    n = runner.ordered_traces(ctx, 'drv_prog.cpp', 'prog', INT_GROUPS, 'TraceAvel', '.prog', cfg_for=prog_cfg)      # integer and float vector types
+    n = runner.ordered_traces(ctx, 'drv_prog.cpp', 'prog', INT_GROUPS, 'TraceAvel', '.prog', cfg_for=prog_cfg, owners_fn=avel_owners)      # integer and float vector types
     ctx.notes.append('composed machine (Avel.tla / TraceAvel.tla): %d distinct register-program traces validated' % n)
 
 
@@ -181,8 +219,12 @@ def gen_avel_replay(ctx):
             if len(evs) != len(steps):
                 raise facts.DriverError('replay of %s in %s: %d events for %d steps' % (name, tag, len(evs), len(steps)))
             bad = 0
+            prev_lvl, diverged = 0, False
             for i, (st, e) in enumerate(zip(steps, evs)):
                 fam, dst = st['fam'], st['dst']
+                if st['lvl'] <= prev_lvl:
+                    diverged = False            # a new behaviour starts from the initial state
+                prev_lvl = st['lvl']
                 if fam in ('store', 'scatter'):
                     ok = e.get('mem') == st['mem']
                 elif fam == 'setenv':
@@ -195,11 +237,17 @@ def gen_avel_replay(ctx):
                 replayed += 1
                 if not ok:
                     bad += 1
-                    if bad <= 3:
+                    # the first step of a behaviour whose observed post-state differs is the one that deviates (the real
+                    # objects and TLC's states are apart from then on: later differences of that behaviour say nothing new)
+                    if not diverged and bad <= 6:
+                        diverged = True
+                        own = avel_owners({'e': fam, 'o': st['op']})
+                        if own is not None and e.get('rm') != st['env']:
+                            own = tuple(own) + ('C11',)
                         ev = dict(e)
                         ev.update({'o': st['op'], 'k': 'g', 'step': i + 1, 'spec_post': st['mem'] if fam in ('store', 'scatter') else (st['V'].get(dst) or st['K'].get(dst)),
                                    'spec_env': st['env'], 'args': st['args']})
-                        ctx.classify(ev, [(tag, '%s:%d:replay_%s' % (name, i + 1, fam))])
+                        ctx.classify(ev, [(tag, '%s:%d:replay_%s' % (name, i + 1, fam))], owners=own)
             if not bad:
                 ctx.ev['traces_validated_against_impl'] += 1
     ctx.ev['tlc_behaviour_steps_replayed_on_code'] = ctx.ev.get('tlc_behaviour_steps_replayed_on_code', 0) + replayed
@@ -226,6 +274,7 @@ def c01(ctx):
     ctx.assumptions += LANE_ASSUME
     def conf():
         runner.lane_facts(ctx, 'drv_int.cpp', 'arith', INT_GROUPS)
+        prog_traces(ctx)            # + - * ++ -- and compound forms in place on live registers (composed machine)
         if ctx.tier == 'thorough':
             ctx.assumptions.append('thorough: all 2^32 operand pairs of the 16-bit types swept natively against the C++ operators in every configuration; disagreements (and only those) are judged by TLC')
             runner.lane_facts(ctx, 'drv_int.cpp', 'sweep16_arith', [16])
@@ -240,13 +289,14 @@ def c02(ctx):
             ctx.assumptions.append('thorough: all 2^32 operand pairs of the 16-bit types swept natively against the C++ operators in every configuration; disagreements (and only those) are judged by TLC')
             runner.lane_facts(ctx, 'drv_int.cpp', 'sweep16_cmp', [16])
         runner.lane_facts(ctx, 'drv_fp.cpp', 'fcmp', [32, 64])
+        prog_traces(ctx)            # comparisons of computed operands, consumed by mask algebra and selection
     _with_mc(ctx, lambda: (mc_intlane(ctx, ['C02']), mc_avel(ctx)), conf)
 
 
 def c04(ctx):
     ctx.assumptions += LANE_ASSUME
     _with_mc(ctx, lambda: mc_intlane(ctx, ['C04']),
-             lambda: runner.lane_facts(ctx, 'drv_int.cpp', 'bits', INT_GROUPS))
+             lambda: (runner.lane_facts(ctx, 'drv_int.cpp', 'bits', INT_GROUPS), prog_traces(ctx)))
 
 
 def c05(ctx):
@@ -268,6 +318,7 @@ def c06(ctx):
 
     def conf():
         runner.lane_facts(ctx, 'drv_int.cpp', 'bitfn', INT_GROUPS)
+        prog_traces(ctx)
         if ctx.tier == 'thorough':
             # all 2^32 values of every 32-bit unary function against the compiler builtins;
             # every disagreement is forwarded to TLC (the comparison itself decides nothing)
@@ -563,7 +614,7 @@ def _fp(ctx, family):
     ctx.assumptions += FP_ASSUME
     def conf():
         runner.lane_facts(ctx, 'drv_fp.cpp', family, FP_GROUPS)
-        if family in ('farith', 'fround'):
+        if family in ('farith', 'fround', 'fmanip', 'fclass'):
             # float register programs with fesetround steps in between: every lane judged under the rounding mode
             # the specification's own state holds at that point (composed machine, TraceAvel.tla)
             prog_traces(ctx)
@@ -580,6 +631,12 @@ def c11(ctx):
     # with FTZ / DAZ set by the caller, in all four rounding modes; only the environment facts are judged (FEnv.tla)
     ctx.assumptions.append('environment preservation is observed around every call of every family (FTZ = DAZ = 0, four rounding modes) and, in the fenv family, around every float operation with FTZ and/or DAZ set by the caller')
     runner.lane_facts(ctx, 'drv_fp.cpp', 'fenv', FP_GROUPS)
+    # ... and "no AVEL operation" includes the integer ones (an emulation through float conversions may set a rounding
+    # mode): the environment facts of the integer drivers are judged here, and only here (their lane facts belong to
+    # C01 / C04 / C05 / C06 / C07 and are not looked at)
+    ctx.assumptions.append('the integer operation families (arith, bits, div, bitfn, select) are run once more and their environment facts (rounding control, FTZ, DAZ before / after every call) judged')
+    for fam in ('arith', 'bits', 'div', 'bitfn', 'select'):
+        runner.lane_facts(ctx, 'drv_int.cpp', fam, INT_GROUPS, only=lambda ln: ln.startswith('{"o":"env"'))
     # "whichever of the four rounding modes is current at the call": also when the program wrote MXCSR alone and the x87
     # control word still holds another mode (FEnv!CurrentMode)
     ctx.assumptions.append('nearbyint / rint are called again with the x87 rounding control deliberately different from MXCSR (quick: one derangement of the four modes, thorough: all twelve unequal pairs); the expected result follows MXCSR, as the C library does for float and double on this platform')
@@ -623,7 +680,7 @@ def c16(ctx):
 def c17(ctx):
     ctx.assumptions += LANE_ASSUME + ['width-1 conversions between element sizes: the 32 (source, destination) pairs AVEL defines are executed; the 24 declared-but-undefined pairs are reported by the link probe of C19']
     _with_mc(ctx, lambda: mc_intlane(ctx, ['C17']),
-             lambda: runner.lane_facts(ctx, 'drv_conv.cpp', 'conv', ALL_GROUPS))
+             lambda: (runner.lane_facts(ctx, 'drv_conv.cpp', 'conv', ALL_GROUPS), prog_traces(ctx)))   # Vector(mask) / mask(Vector) steps
 
 
 CHECKS = {
